@@ -198,6 +198,28 @@ def expand_fn(src, qual, opts, sections, tline0, notes):
         # N-6: `pub fn` -> `pub(crate) fn` (visibility only: lets the contract mention crate-private spec functions)
         text = 'pub(crate) fn ' + text[len('pub fn '):]
         notes.append({'id': 'N-6', 'what': 'pub fn -> pub(crate) fn on %s' % qual, 'file': src.rel, 'fn': qual})
+    if 'rebind_self' in opts:
+        # N-8: Verus rejects `mut self` receivers.  `fn f(mut self, ..) { B }` is rewritten to
+        # `fn f(self, ..) { let mut self__ = self; B[self := self__] }` -- a renaming of one binding.
+        c0 = classify(text)
+        po0 = text.index('(', re.search(r'\bfn\s+\w+', text).end())
+        pc0 = match_close(text, c0, po0)
+        sig = text[po0:pc0 + 1]
+        if not re.search(r'\(\s*mut\s+self\b', sig):
+            raise GenError('%s %s: rebind_self given but the receiver is not `mut self`' % (src.rel, qual))
+        sig2 = re.sub(r'\(\s*mut\s+self\b', '(self', sig, count=1)
+        bo0 = next(m.start() for m in find_code(text, c0, r'\{', pc0))
+        body = text[bo0 + 1:]
+        cb = classify(body)
+        out = []
+        last = 0
+        for m in find_code(body, cb, r'\bself\b'):
+            out.append(body[last:m.start()])
+            out.append('self__')
+            last = m.end()
+        out.append(body[last:])
+        text = text[:po0] + sig2 + text[pc0 + 1:bo0 + 1] + ' let mut self__ = self;' + ''.join(out)
+        notes.append({'id': 'N-8', 'what': '`mut self` receiver of %s rebound as `let mut self__ = self` (Verus rejects mut self)' % qual, 'file': src.rel, 'fn': qual})
     if 'as' in opts:
         name = qual.rsplit('::', 1)[-1]
         text2 = re.sub(r'\bfn\s+' + re.escape(name) + r'\b', 'fn ' + opts['as'], text, count=1)
